@@ -12,7 +12,7 @@ EXPLANATION = (
     "still protects the old tail; pop reads prev->value before the CAS on head, returns it only on the success edge, retires "
     "exactly the old head and only there; empty is reported only for a validated head whose prev is NULL, after slot 0 was "
     "cleared.  Linearizability itself (a history property) is not decided.")
-NOT_DECIDED = ["linearizability / exactly-once over all interleavings incl. node reuse (history property)"]
+NOT_DECIDED = ["linearizability / exactly-once over all interleavings incl. node reuse (history property)", "real-time precedence against an observer outside the memory model (a push may return while its publishing store is still in the store buffer; under TSO no second thread can learn of the return through memory before it sees that store)"]
 ASSUMPTIONS = ["x86-TSO for the plain prev/value accesses ordered by the release CASes"]
 Q = "mpmc_fifo"
 N = "mpmc_fifo_node"
